@@ -35,6 +35,20 @@ add("C09", "model_checking",
     MC_NOTE + "The co-tenant is deterministic and always runs (worst case). Skip-decoder results are covered through the reader they are backed by.",
     "explicit-state BFS over operation histories of the real objects with an adversarial environment process and ownership audit", "E2+E4", "5/C09")
 
+EX_NOTE = COMMON_NOTE + "The reference is an independent recursive-descent parser of the Thrift Binary grammar (ref/wire.go) written from the format, not from the code. "
+
+add("C02", "exploration",
+    "Bounded-exhaustive enumeration: every typed value tree of the generator (all 121 map key/value type pairs, all 11 list/set element types, sizes 0..3/many, 121 ordered struct field pairs, wide values, nesting chains to depth 63, strings to 9000 bytes) x trailers x all 7 skipper/reader combinations x every fragmentation policy of the stream, plus every per-Read deviation (<= bound) on small values and all decoder histories of <= 3 Next calls with pool reuse; oracle = encoded length / bytes / ReadLen / next byte / bytes pulled from the io.Reader.",
+    EX_NOTE, "bounded-exhaustive enumeration of typed value trees x environment answers (deviation-bounded) against a reference encoder", "E1+E6", "5/C02")
+add("C03", "exploration",
+    "Bounded-exhaustive enumeration of inputs on all 21 buffer-based entry points: all grammar-alphabet strings up to length L and all full-alphabet strings up to length 2/3 (Binary.Skip with all 256 type bytes), every truncation, every single (thorough: pair of) structural perturbation and all pairwise splices of valid encodings; each call runs in three placements (against a PROT_NONE guard page, with spare capacity 0x00 and 0xff) under a recover boundary: no panic, no fault, identical results, reported length <= len(input).",
+    EX_NOTE + "Allocating entry points are driven with declared sizes <= 65536 only (the cap the statement allows).",
+    "bounded-exhaustive input enumeration with guard-page placement and panic/fault boundary", "E6+E7", "5/C03")
+add("C08", "exploration",
+    "Bounded-exhaustive enumeration on all five skipping facilities (7 skipper/reader combinations): all grammar-alphabet strings up to length L x 18 requested types, every strict prefix and structural perturbation of generated trees, nesting chains 1..70 (plus mixed-kind and very deep chains) — accept/reject and extent compared with the independent grammar parser; rejection required from nesting 65, level 64 not compared.",
+    EX_NOTE + "A stream skipper asking for > 2 MiB on a < 64 KiB input counts as a rejection (counted separately).",
+    "bounded-exhaustive input enumeration against an independent recursive-descent grammar", "E6", "5/C08")
+
 NOT_YET = {}
 
 def main():
